@@ -13,7 +13,7 @@ namespace CelerVerif.Streams
 variable {P S A : Type}
 
 /-- ★ steps of two different streams commute -/
-theorem steps_commute (sem : Sem P S A) (i j : Nat) (h : i ≠ j) (g : Global P S A) :
+theorem steps_commute (sem : Sem P S A) (i j : Nat) (_h : i ≠ j) (g : Global P S A) :
     step sem i (step sem j g) = step sem j (step sem i g) := by
   have e1 : step sem i (step sem j g) = exec sem [j, i] g := rfl
   have e2 : step sem j (step sem i g) = exec sem [i, j] g := rfl
@@ -61,15 +61,17 @@ theorem lazy_create_idempotent (sem : Sem P S A) (i : Nat) (g : Global P S A) :
     step sem i (ensure sem i g) = step sem i g := by
   unfold ensure
   cases hs : g.store i with
-  | some a => simp [hs]
+  | some a => exact ⟨by simp [hs], rfl, fun _ _ => rfl, fun _ => rfl, rfl⟩
   | none =>
     refine ⟨?_, rfl, ?_, fun _ => rfl, ?_⟩
     · simp [update]
     · intro j hj; simp [update, hj]
-    · simp only [step, update, if_true, hs, Option.getD_none, Option.getD_some]
-      congr 1
-      funext j
-      by_cases h : j = i <;> simp [h]
+    · apply global_ext
+      · rfl
+      · intro k
+        by_cases hk : k = i
+        · subst hk; simp [step, update, hs]
+        · simp [step, update, hk]
 
 /-! non-vacuity: two counters with lazily created tallies -/
 def demo : Sem Nat Nat Nat := ⟨fun p _ => p, fun p i (s, a) => (s + p + i, a + 1)⟩
